@@ -1,0 +1,49 @@
+//go:build verif
+
+package s2
+
+// Export hooks for the verification harness (property C20). Compiled only
+// with the build tag "verif"; thin wrappers, no behaviour.
+
+import (
+	"github.com/golang/geo/r2"
+	"github.com/golang/geo/s1"
+)
+
+// VerifFindEndVertex exposes findEndVertex.
+func VerifFindEndVertex(p Polyline, tolerance s1.Angle, index int) int {
+	return findEndVertex(p, tolerance, index)
+}
+
+// VerifTessScaledTolerance exposes EdgeTessellator.scaledTolerance.
+func VerifTessScaledTolerance(e *EdgeTessellator) s1.ChordAngle { return e.scaledTolerance }
+
+// VerifTessEstimateMaxError exposes EdgeTessellator.estimateMaxError.
+func VerifTessEstimateMaxError(e *EdgeTessellator, pa r2.Point, a Point, pb r2.Point, b Point) s1.ChordAngle {
+	return e.estimateMaxError(pa, a, pb, b)
+}
+
+// VerifTessConstants exposes the tessellator constants.
+func VerifTessConstants() (frac, scale float64, minTol s1.Angle) {
+	return tessellationInterpolationFraction, tessellationScaleFactor, minTessellationTolerance
+}
+
+// VerifCellIDMinSnapRadiusForLevel exposes CellIDSnapper.minSnapRadiusForLevel.
+func VerifCellIDMinSnapRadiusForLevel(level int) s1.Angle {
+	return CellIDSnapper{}.minSnapRadiusForLevel(level)
+}
+
+// VerifCellIDLevelForMaxSnapRadius exposes CellIDSnapper.levelForMaxSnapRadius.
+func VerifCellIDLevelForMaxSnapRadius(r s1.Angle) int {
+	return CellIDSnapper{}.levelForMaxSnapRadius(r)
+}
+
+// VerifIntLatLngMinSnapRadiusForExponent exposes IntLatLngSnapper.minSnapRadiusForExponent.
+func VerifIntLatLngMinSnapRadiusForExponent(e int) s1.Angle {
+	return IntLatLngSnapper{}.minSnapRadiusForExponent(e)
+}
+
+// VerifIntLatLngExponentForMaxSnapRadius exposes IntLatLngSnapper.exponentForMaxSnapRadius.
+func VerifIntLatLngExponentForMaxSnapRadius(r s1.Angle) int {
+	return IntLatLngSnapper{}.exponentForMaxSnapRadius(r)
+}
